@@ -147,6 +147,9 @@ def main(prop, tier="quick", seed=0, jobs=None):
     for i, t in enumerate(tasks):
         o = dict(t.get("opts", {}))
         o.setdefault("cross_check", 3 if tier == "quick" else 12)
+        # a shared harness states the obligations of several properties; only those this property is
+        # decided by (OWNED prefixes and REQUIRED ids) are discharged in its run
+        o.setdefault("only", list(getattr(hmod, "OWNED", None) or [prop]) + list(getattr(hmod, "REQUIRED", [])))
         joblist.append((t.get("module", prop), t["fn"], t.get("shape", {}), o, alias, seed, i))
     if seed:
         import random
